@@ -8,4 +8,5 @@ Extraction "model_fd.ml"
   errno jv
   xfer tokener parse2 c_str object_to_fd object_to_file_ext object_from_fd_ex object_from_fd object_from_file
   oflags TO_FILE_FLAGS FROM_FILE_FLAGS fsys fs_get fs_set object_to_file_with object_to_file_fs
-  object_from_file_with object_from_file_fs object_from_fd_at object_to_fd_at.
+  object_from_file_with object_from_file_fs object_from_fd_at object_to_fd_at
+  object_from_file_ret object_to_file_ext_ret.
